@@ -317,6 +317,12 @@ func checkSet(t *vk.T, fdp *descriptorpb.FileDescriptorProto, coord string) {
 			walk(md.Messages())
 			schema, err := cache.Schema(md)
 			t.Step()
+			// history: whether a type reflects must not depend on which lookups the cache served (and
+			// failed) before; a fresh cache asked for this type alone is the reference
+			if _, ferr := j5schema.NewSchemaCache().Schema(md); (ferr == nil) != (err == nil) {
+				t.Violation("lookup-depends-on-cache-history|"+scope, fmt.Sprintf("SchemaCache.Schema(%s): on a cache that served the other messages of the file first: %v; on a fresh cache: %v\n%s", md.FullName(), err, ferr, coord), coord, nil, nil)
+			}
+			t.Step()
 			if err != nil {
 				// history: asking the same cache again must fail again, not hand out a half-built schema,
 				// and the objects built on a failed type must return errors rather than crash
